@@ -112,7 +112,7 @@ def gen_case(run_seed: int, tier: str, index: int = 0) -> dict:
         # a pass may be handed the PassResult of the previous pass instead of the model (chaining form)
         step["via_result"] = Streams(run_seed).rng(f"via-result-{len(schedule)}").random() < 0.2
         schedule.append(step)
-    return {"property": PROPERTY, "run_seed": run_seed, "model_seed": r.randrange(1 << 30), "params": params, "schedule": schedule}
+    return {"property": PROPERTY, "run_seed": run_seed, "model_seed": r.randrange(1 << 30), "params": params, "schedule": schedule, "reuse_pass_objects": Streams(run_seed).rng("reuse-pass-objects").random() < 0.4}
 
 
 class _Boundary:
@@ -281,23 +281,35 @@ def _size_bound(model) -> int:
     return 1 + len(nodes) + len(values) + inits + len(model.functions)
 
 
+_PASS_CACHE: dict | None = None  # when set: pass objects are reused across the steps of a run (a pass object may be applied many times)
+
+
+def _mk(name, opt):
+    if _PASS_CACHE is None:
+        return PASSES[name](opt)
+    key = (name, opt)
+    if key not in _PASS_CACHE:
+        _PASS_CACHE[key] = PASSES[name](opt)
+    return _PASS_CACHE[key]
+
+
 def _build(step):
-    p = PASSES[step["pass"]](step["opt"])
+    p = _mk(step["pass"], step["opt"])
     mode = step["mode"]
     if mode == "sequential":
-        return ir.passes.Sequential(p, *[PASSES[n](o) for n, o in step["others"]])
+        return ir.passes.Sequential(p, *[_mk(n, o) for n, o in step["others"]])
     if mode == "manager":
-        inner = ir.passes.PassManager([p] + [PASSES[n](o) for n, o in step["others"]], steps=step["steps"], early_stop=step["early_stop"])
+        inner = ir.passes.PassManager([p] + [_mk(n, o) for n, o in step["others"]], steps=step["steps"], early_stop=step["early_stop"])
         return ir.passes.PassManager([inner], steps=2, early_stop=True)
     if mode == "functional":
         return ir.passes.functionalize(p)
     if mode == "fseq":
-        members = [p] + [ir.passes.functionalize(PASSES[n](o)) if wr else PASSES[n](o) for (n, o), wr in zip(step["others"], step["wrap"])]
+        members = [p] + [ir.passes.functionalize(_mk(n, o)) if wr else _mk(n, o) for (n, o), wr in zip(step["others"], step["wrap"])]
         comp = ir.passes.PassManager(members, steps=step["steps"], early_stop=step["early_stop"]) if step["as_manager"] else ir.passes.Sequential(*members)
         return ir.passes.functionalize(comp)
     if mode == "fmanager":
         # a manager composed of functional passes is itself functional
-        return ir.passes.PassManager([ir.passes.functionalize(x) for x in [p] + [PASSES[n](o) for n, o in step["others"]]], steps=step["steps"], early_stop=step["early_stop"])
+        return ir.passes.PassManager([ir.passes.functionalize(x) for x in [p] + [_mk(n, o) for n, o in step["others"]]], steps=step["steps"], early_stop=step["early_stop"])
     return p
 
 
@@ -318,6 +330,10 @@ def run_case(case: dict) -> dict:
     except Exception as e:  # noqa: BLE001
         res["error"] = str(e)
         return res
+    global _PASS_CACHE
+    _PASS_CACHE = {} if case.get("reuse_pass_objects") else None
+    if _PASS_CACHE is not None:
+        inc("runs_reusing_pass_objects")
     with boundary:
         for si, step in enumerate(case["schedule"]):
             name, mode = step["pass"], step["mode"]
